@@ -358,6 +358,18 @@ CORPUS = [
 ]
 
 
+# the input of the repaired finding `zero-length-read` (04453c5): zero-length reads of existing immutable and mutable
+# shares, inside, at and past the end — reverting the repair makes the HTTP client raise ValueError here again
+CORPUS.append(
+    [["c", "SI0", [0], 3, "aa", "L0", "L1"], ["w", "SI0", 0, "aa", 0, "010203"], ["r", "SI0", 0, 1, 0], ["r", "SI0", 0, 0, 0],
+     ["r", "SI0", 0, 3, 0], ["r", "SI0", 0, 9, 0],
+     ["q", "SI1", "WE", "L0", "L1", {"tw": [[0, [], [[0, "616263"]], None]], "rv": []}], ["m", "SI1", 0, 1, 0], ["m", "SI1", 0, 7, 0]])
+# the remaining difference (open finding `zero-length-read-missing-share`): the share / slot does not exist
+CORPUS.append(
+    [["q", "SI1", "WE", "L0", "L1", {"tw": [[0, [], [[0, "616263"]], None]], "rv": []}], ["m", "SI1", 1, 1, 0], ["r", "SI0", 0, 0, 0],
+     ["m", "SI1", 1, 1, 2], ["r", "SI0", 0, 0, 2]])
+
+
 def instantiate(corpus_hist, rng):
     from allmydata.storage.common import si_b2a
     names = {"SI0": si_b2a(rbytes(rng, 16)).decode(), "SI1": si_b2a(rbytes(rng, 16)).decode(),
@@ -369,7 +381,7 @@ def instantiate(corpus_hist, rng):
 def classify(op, d, h):
     k = op[0]
     if k in "rm" and op[4] == 0:
-        return "zero-length-read"
+        return "zero-length-read-missing-share" if d == "noshare" else "zero-length-read"
     if k == "w" and op[5] == "":
         return "empty-chunk-write"
     return "result-mismatch-" + {"c": "create", "w": "write", "a": "abort", "r": "read", "m": "mread", "l": "list", "k": "mlist",
@@ -415,7 +427,8 @@ def run_history(ctx, ops):
             if canon_http(op, h) != d:
                 ctx.violation("HTTP path and direct call disagree: direct=%s http=%s" % (d[:80], h[:80]), sub, classify(op, d, h),
                               detail={"direct": d, "http": h})
-                diverged = True
+                if not (op[0] in "rm" and op[4] == 0):     # a read changes nothing: the two servers are still in step
+                    diverged = True
                 continue
             if op[0] == "q" and recorder:
                 # what the storage server behind HTTP was called with == what the direct caller passed
@@ -512,6 +525,26 @@ def read_grid(ctx):
                         impl.append(res)
                         cases.append(case)
                         ctx.case(("grid", kind, size, off, ln))
+        # a share that does not exist: every (offset, length) must surface as 404 like the direct paths' missing entry
+        for off in (0, 3):
+            for ln in (0, 1, 5):
+                for kind in ("r", "m"):
+                    try:
+                        got = stack.wait((imm if kind == "r" else mut).read_share_chunk(si if kind == "r" else msi, 9, off, ln))
+                        res = "data:" + hx(got)
+                    except ClientException as e:
+                        res = "err:%d" % e.code
+                    except (ValueError, AssertionError):
+                        res = "clienterror"
+                    case = {"kind": "read-missing", "share": kind, "offset": off, "length": ln}
+                    if res != "err:404":
+                        ctx.violation("read_share_chunk(offset=%d, length=%d) of a share that does not exist gives %s over HTTP; "
+                                      "the direct paths have no such share" % (off, ln, res), case,
+                                      "zero-length-read-missing-share" if ln == 0 else "missing-share-read")
+                    lines.append("readmissing %d %d" % (off, ln))
+                    impl.append(res)
+                    cases.append(case)
+                    ctx.case(("grid-missing", kind, off, ln))
         ctx.count("read-grid", len(lines))
     finally:
         stack.close()
